@@ -200,7 +200,9 @@ func (e *c16env) runRow(res *verifrt.Result, idx int, row c16row) {
 	case "local":
 		os.WriteFile(filepath.Join(tdir, "mode"), []byte("local"), 0o666)
 	case "off":
-		os.WriteFile(filepath.Join(tdir, "mode"), []byte("off 2023-03-03"), 0o666)
+		// (whatever follows the word: an unparseable date does not turn telemetry on)
+		offTexts := []string{"off 2023-03-03", "off", "off 2024-9-3", "off  2024-01-05", "off 2024-02-30", "off 2024-01-05T10:11:12Z", "off since yesterday", " off\n", "off 2023-03-03 extra"}
+		os.WriteFile(filepath.Join(tdir, "mode"), []byte(offTexts[idx%len(offTexts)]), 0o666)
 	case "garbage":
 		os.WriteFile(filepath.Join(tdir, "mode"), []byte("\x00\xffwhatever"), 0o666)
 	}
@@ -454,7 +456,7 @@ func c16Zone(at time.Time, before, after int32) *time.Location {
 func TestVerifC16Token(t *testing.T) {
 	const check = "C16.token"
 	res := verifrt.NewResult(check)
-	res.Rule = "2-6 virtual threads call acquireUploadToken on one directory under the token-passing scheduler (scheduling point at its Stat/Remove/OpenFile), token initially absent or fresh (written 0s..23h45m ago; stale-token races are excluded by the property), the process's local time zone set to UTC, fixed +14h/-11h offsets or a synthetic zone whose offset changed by an hour within the last day, in every other case with an injected failure (ENOSPC, EACCES, EMFILE, EROFS, EIO, ENOENT, EDQUOT) of one or all of the token file's Stat/Remove/OpenFile calls, strategies park-at-k / PCT / random; then 2-24 real processes started together with Upload set. Oracle: at most one caller acquires (true returns / sidecars with the upload flag) and only a caller whose exclusive create succeeded (from the system-call event log). distinct = distinct traces"
+	res.Rule = "2-6 virtual threads call acquireUploadToken on one directory under the token-passing scheduler (scheduling point at its Stat/Remove/OpenFile), token initially absent or fresh (written 0s..23h45m ago; stale-token races are excluded by the property), the process's local time zone set to UTC, fixed +14h/-11h offsets or a synthetic zone whose offset changed by an hour within the last day, in every other case with an injected failure (ENOSPC, EACCES, EMFILE, EROFS, EIO, ENOENT, EDQUOT) of one or all of the token file's Stat/Remove/OpenFile calls, strategies park-at-k / PCT / random; then 2-24 real processes started together with Upload set; and two-starter histories in which the first takes the token but cannot launch its sidecar (unopenable log file in the debug directory). Oracle: at most one caller acquires (true returns / sidecars with the upload flag) and only a caller whose exclusive create succeeded (from the system-call event log). distinct = distinct traces"
 	base, _ := os.MkdirTemp(os.Getenv("VERIF_TMP"), "c16t-")
 	defer os.RemoveAll(base)
 	n := verifrt.Scale(600, 30000)
@@ -639,7 +641,66 @@ func TestVerifC16Token(t *testing.T) {
 		}
 		os.RemoveAll(work)
 	}
-	res.Require("strategy:park", "strategy:pct", "one-winner", "real-race-round", "fault:OpenFile", "fault:Stat", "fault-on-every-or-last-starter", "local-zone:spring-forward", "local-zone:fall-back", "fresh-token-age:23h30m0s")
+	// a starter that takes the token but cannot launch its sidecar (the debug
+	// directory holds something unopenable where the sidecar's log goes): the
+	// token stays taken, so a second starter within the period gets none
+	lf := verifrt.Scale(4, 60)
+	for k := 0; k < lf; k++ {
+		work, _ := os.MkdirTemp(e.base, "launchfail")
+		tdir := filepath.Join(work, "xdg", "go", "telemetry")
+		os.MkdirAll(filepath.Join(tdir, "local"), 0o777)
+		os.WriteFile(filepath.Join(tdir, "mode"), []byte(verifrt.Pick(verifrt.NewRand(verifrt.Seed(), fmt.Sprint("lf", k)), []string{"local", "on 2020-01-01"})), 0o666)
+		obstacle := filepath.Join(tdir, "debug", "sidecar.log")
+		os.MkdirAll(obstacle, 0o777) // a directory where the log file should be opened
+		logPath := filepath.Join(work, "procs.log")
+		runApp := func(tag string) bool {
+			runID := fmt.Sprintf("lf-%d-%d-%s-%d", os.Getpid(), k, tag, time.Now().UnixNano())
+			cmd := exec.Command(os.Args[0])
+			env := []string{}
+			for _, kv := range os.Environ() {
+				kk := strings.SplitN(kv, "=", 2)[0]
+				switch kk {
+				case "GO_TELEMETRY_CHILD", "GO_TELEMETRY_CHILD_UPLOAD", "XDG_CONFIG_HOME", "HOME", "PATH", "VERIF_BATCH":
+					continue
+				}
+				env = append(env, kv)
+			}
+			cmd.Env = append(env, "XDG_CONFIG_HOME="+filepath.Join(work, "xdg"), "HOME="+work, "PATH="+e.bindir+":"+os.Getenv("PATH"), "VERIF_START_APP=1", "VERIF_START_LOG="+logPath,
+				"VERIF_START_CFG=upload", "VERIF_START_URL=http://127.0.0.1:1/upload", "VERIF_RUN_ID="+runID, "GOPROXY=off", "GOFLAGS=")
+			cmd.SysProcAttr = &syscall.SysProcAttr{Setsid: true}
+			cmd.Run()
+			return waitGone(runID, 20*time.Second)
+		}
+		ok1 := runApp("a")
+		_, terr := os.Stat(filepath.Join(tdir, "local", "upload.token"))
+		n1 := len(readLog(logPath))
+		os.RemoveAll(filepath.Join(tdir, "debug"))
+		ok2 := runApp("b")
+		res.Eval()
+		res.Distinct(fmt.Sprintf("launchfail/%d", k))
+		if !ok1 || !ok2 {
+			res.Inconc("launch-failure history: descendants still alive")
+			os.RemoveAll(work)
+			continue
+		}
+		res.Hit("launch-failure-history")
+		ups := 0
+		for _, r := range readLog(logPath) {
+			if r.Marker == "1" && r.Upload == "1" {
+				ups++
+			}
+		}
+		rp := map[string]any{"history": "launch-failure", "k": k}
+		if n1 != 1 {
+			res.Inconc(fmt.Sprintf("launch-failure history: the first starter was expected to fail launching its sidecar, but %d processes logged themselves", n1))
+		} else if terr != nil {
+			res.Violate("token-given-back", "a starter that took the upload token but could not launch its sidecar left no token file: the next starter of the period takes it again", rp)
+		} else if ups > 0 {
+			res.Violate("token-acquired-twice", fmt.Sprintf("after a starter had taken the token (and failed to launch), a second starter within the period launched %d uploading sidecar(s)", ups), rp)
+		}
+		os.RemoveAll(work)
+	}
+	res.Require("launch-failure-history", "strategy:park", "strategy:pct", "one-winner", "real-race-round", "fault:OpenFile", "fault:Stat", "fault-on-every-or-last-starter", "local-zone:spring-forward", "local-zone:fall-back", "fresh-token-age:23h30m0s")
 	if err := res.Write(); err != nil {
 		t.Fatal(err)
 	}
